@@ -18,7 +18,7 @@ import tempfile
 
 import numpy as np
 
-from mc.core import Report, viol, collect_samples, HarnessError
+from mc.core import Report, viol, collect_samples, HarnessError, Isolated
 from mc import explorer
 
 from molgri.space.rotobj import SphereGridFactory
@@ -272,7 +272,9 @@ def run(ctx):
     global _TABLE
     rep = Report(PROPERTY, "model_checking")
     specs = SPECS_Q if not ctx.thorough else SPECS_Q + ["ico_43", "cube4D_17", "randomS_20", "randomQ_12"]
-    specs = specs + ["FG|cube4D_5|ico_7|[0.1,0.2]|shell", "FG|randomQ_6|cube3D_9|[0.2,0.3,0.45]|cart"]
+    FGS = ["FG|cube4D_5|ico_7|[0.1,0.2]|shell", "FG|cube4D_5|ico_7|[0.1,0.2]|cart",
+           "FG|randomQ_6|cube3D_9|[0.2,0.3,0.45]|cart", "FG|randomQ_6|cube3D_9|[0.2,0.3,0.45]|shell"]
+    specs = specs + FGS
     tables = build_table(specs)
     hs = sorted(tables)
     ref = tables[hs[0]]
@@ -288,7 +290,7 @@ def run(ctx):
             f"t={__import__('time').time()-ctx.t0:.0f}s")
     depth = 3 if ctx.thorough else 2
     sysm = GridSystem(SPECS_Q if not ctx.thorough else SPECS_Q[:8], ref)
-    r = explorer.bfs(ctx, sysm, depth=depth, max_states=None)
+    r = explorer.bfs(ctx, sysm, depth=depth, max_states=None, isolate=True)
     rep.add_violations(r["violations"])
     ctx.log(f"  C08 bfs depth={depth}: states={r['states']} transitions={r['transitions']} t={__import__('time').time()-ctx.t0:.0f}s")
     # selected deeper histories: create, ALL getters in two different orders with RNG events in between, re-create
@@ -303,9 +305,26 @@ def run(ctx):
             h.append({"op": "create", "spec": s})
             h += [{"op": "get", "spec": s, "getter": g} for g in order[:3]]
             deep.append({"history": h, "specs": specs})
+    # cross histories: two objects that share part of their specification live in ONE process (module-level registries,
+    # class-level caches): build A, build B, then read every getter of B and of A
+    import itertools as _it
+    pairs = [(FGS[0], FGS[1]), (FGS[1], FGS[0]), (FGS[2], FGS[3]), (FGS[3], FGS[2]), ("cube4D_5", "cube4D_9"),
+             ("cube4D_9", "cube4D_5"), ("randomQ_6", "cube4D_5"), ("ico_7", "ico_13"), ("ico_13", "ico_7"),
+             ("cube4D_5", FGS[0]), (FGS[0], "cube4D_5"), ("randomS_6", "randomQ_6"), ("randomQ_6", "randomS_6")]
+    for a, b in pairs:
+        for seed_between in (False, True):
+            h = [{"op": "create", "spec": a}]
+            if seed_between:
+                h.append({"op": "reseed", "k": 12345})
+            h.append({"op": "create", "spec": b})
+            if seed_between:
+                h.append({"op": "draw"})
+            h += [{"op": "get", "spec": b, "getter": g} for g in ("volumes", "borders", "distances", "adjacency", "array")]
+            h += [{"op": "get", "spec": a, "getter": g} for g in ("volumes", "borders", "distances")]
+            deep.append({"history": h, "specs": specs})
     global _DEEP_TABLE
     _DEEP_TABLE = ref
-    dres = ctx.pmap(deep_case, deep, chunksize=1, recheck=2)
+    dres = ctx.pmap(Isolated(deep_case), deep, chunksize=1, recheck=2)
     for x in dres:
         rep.add_violations(x["violations"])
     # prefix claim
@@ -324,7 +343,7 @@ def run(ctx):
         else:
             for ph in range(4):
                 pcs.append(dict(c, stride=4, phase=ph))
-    pres = ctx.pmap(prefix_case, pcs, chunksize=1, recheck=1)
+    pres = ctx.pmap(Isolated(prefix_case), pcs, chunksize=1, recheck=1)
     for x in pres:
         rep.add_violations(x["violations"])
     nprefix = sum(x["n"] for x in pres)
